@@ -1147,6 +1147,9 @@ func (p *Path) tryMerge(fr *frame, in *ssa.If, c *Term) bool {
 	if p.hr.h.NoMerge {
 		return false
 	}
+	if p.hr.h.MergeStores { // mergemem.go
+		return p.tryMergeMem(fr, in, c)
+	}
 	blk := fr.block
 	tb, fb := blk.Succs[0], blk.Succs[1]
 	var join *ssa.BasicBlock
